@@ -164,6 +164,7 @@ func main() {
 	r.Assume("strings are valid UTF-8 made of characters representable in the collation's character set (the binary collation gets raw bytes)")
 	r.Assume("equal hashes with different weight strings are hash collisions: counted, not reported")
 	r.Assume("case law is asserted for ASCII letters only; excluded by documented language tailoring: i/I in the Turkish collations; excluded via=domain: t/T in latin7_general_ci (see findings/C29.md)")
+	r.Assume("thorough sweep: every scalar value for the utf8mb4/utf16/utf32/binary collations; for character sets that cannot represent supplementary characters (single-byte sets, utf8mb3) the whole BMP plus 1/16 of the supplementary planes")
 	r.Assume("SQL layer: no leading/trailing spaces (PAD SPACE is not part of this property), no LIKE metacharacters")
 	discover(r)
 	r.Floor(len(colls) >= 100, "fewer than 100 collations with a sorter were found")
@@ -217,10 +218,19 @@ func sweep(r *core.Run) {
 		rnd := r.Rand("sweep", ci)
 		var idx []int32
 		switch {
-		case full:
+		case full && (g2lib.IsUnicodeCharset(c.c.CharacterSet) && c.c.CharacterSet.Name() != "utf8mb3" || c.binary):
 			idx = make([]int32, g2lib.NumScalars)
 			for i := range idx {
 				idx[i] = int32(i)
+			}
+		case full:
+			// character sets that cannot represent supplementary characters (single-byte sets, utf8mb3):
+			// the whole BMP, and 1/16 of the (unrepresentable, hence out-of-domain) supplementary planes
+			for i := 0; i < 0x10000-0x800; i++ {
+				idx = append(idx, int32(i))
+			}
+			for i := 0x10000 - 0x800 + off%16; i < g2lib.NumScalars; i += 16 {
+				idx = append(idx, int32(i))
 			}
 		case representative[c.name]:
 			for i := 0; i < 0x10000-0x800; i++ {
